@@ -8,7 +8,8 @@ cd /verif
 W=$(mktemp -d /tmp/seedrun.XXXXXX)
 trap 'rm -rf "$W"' EXIT
 git -C /repo archive HEAD | tar -x -C "$W"
-out=/verif/seeded/RESULTS.md
+out=${SEEDS_OUT:-/verif/seeded/RESULTS.md}
+tmp="$out.$$.tmp"
 {
 echo "# Seeded changes: confirmation runs"
 echo
@@ -16,21 +17,22 @@ echo "Each row was produced by tools/verify_seeds.sh on a scratch copy of /repo 
 echo
 echo "| seed | demo clean | demo patched | suite with patch | quick check with patch |"
 echo "|---|---|---|---|---|"
-} > "$out.tmp"
+} > "$tmp"
 for d in ${@:-$(ls -d seeded/C*-* | sort)}; do
   d=${d%/}; id=$(basename "$d"); pid=${id%%-*}
+  if grep -q '"obsolete"' "$d/meta.json" 2>/dev/null; then echo "| $id | obsolete (see meta.json) | | | |" >> "$tmp"; continue; fi
   (cd "$W" && git init -q 2>/dev/null; true)
   rm -rf "$W/src"; git -C /repo archive HEAD src tests | tar -x -C "$W"
   dc=$(cd "$W" && PYTHONPATH="$W/src" /venv/bin/python "/verif/$d/demo.py" >/dev/null 2>&1; echo $?)
-  if ! (cd "$W" && patch -p1 -s < "/verif/$d/patch.diff"); then echo "| $id | $dc | PATCH DOES NOT APPLY | | |" >> "$out.tmp"; continue; fi
+  if ! (cd "$W" && patch -p1 -s < "/verif/$d/patch.diff"); then echo "| $id | $dc | PATCH DOES NOT APPLY | | |" >> "$tmp"; continue; fi
   dp=$(cd "$W" && PYTHONPATH="$W/src" /venv/bin/python "/verif/$d/demo.py" >/dev/null 2>&1; echo $?)
   suite=$(cd "$W" && PYTHONPATH="$W/src" /venv/bin/python -m pytest -q -p no:cacheprovider --timeout=900 2>&1 | grep -E "passed|failed" | tail -1 | sed 's/ in .*//;s/, [0-9]* warnings//')
   chk=$(PYTHONPATH="$W/src" ZORG_SRC="$W/src" PYVC_NO_CACHE=1 timeout 3000 ./check "$pid" --tier quick 2>/dev/null | grep -c "^VIOLATION")
-  echo "| $id | exit $dc | exit $dp | $suite | $chk VIOLATION line(s) |" >> "$out.tmp"
+  echo "| $id | exit $dc | exit $dp | $suite | $chk VIOLATION line(s) |" >> "$tmp"
 done
 if [ $# -gt 0 ] && [ -f "$out" ]; then
   # partial run: replace / add only the rows of the given seeds
-  python3 - "$out" "$out.tmp" <<'PY'
+  python3 - "$out" "$tmp" <<'PY'
 import sys, re
 old, new = open(sys.argv[1]).read().split("\n"), open(sys.argv[2]).read().split("\n")
 rows = {}
@@ -46,8 +48,8 @@ head[1] = head[1].replace("Each row was", "Rows are re-run individually; the las
 key = lambda i: (int(i[1:3]), int(i.split("-")[1]))
 open(sys.argv[1], "w").write("\n\n".join(head[:2]) + "\n\n" + "\n".join(head[2:]) + "\n" + "\n".join(rows[i] for i in sorted(order, key=key)) + "\n")
 PY
-  rm -f "$out.tmp"
+  rm -f "$tmp"
 else
-  mv "$out.tmp" "$out"
+  mv "$tmp" "$out"
 fi
 cat "$out"
